@@ -36,6 +36,9 @@ Definition run_case (st : dstate) (x : sexp) : dstate * outcome :=
       | Some hc => (st, run_hist_extract (ds_prop st) (ds_schemas st) hc live mobs mgr ext o)
       | None => (st, out_bad "unknown conf")
       end
+  | SList [SAtom "c19.include"; pats; set; res] => (st, run_c19_include pats set res)
+  | SList [SAtom "c19.exclude"; ex; set; res] => (st, run_c19_exclude ex set res)
+  | SList [SAtom "c19.same"; a; b; obs] => (st, run_c19_same a b obs)
   | SList [SAtom "c17.matrix"; SAtom kind; items; rows] => (st, run_c17_matrix kind items rows)
   | SList [SAtom "c17.pes"; ins; univ; iter; has] => (st, run_c17_pes ins univ iter has)
   | SList [SAtom "c17.pem"; ins; univ; gets] => (st, run_c17_pem ins univ gets)
